@@ -477,16 +477,16 @@ def run(ctx: Ctx) -> None:
     ttp = tuple(n for n in gen_misc.TTP_NAMES if n in have)
     mi = ctx.pick(14, 30)
     ctx.given("instance", gen_misc.instance_text_cases(max_items=mi),
-              check_instance, quick=1200, thorough=16 * 3000)
+              check_instance, quick=1200, thorough=16 * 2000)
     ctx.given("packing", gen_misc.packing_text_cases(max_items=mi),
-              check_packing, quick=800, thorough=16 * 2500)
+              check_packing, quick=800, thorough=16 * 1600)
     ctx.given("plan", gen_misc.plan_text_cases(ttp), check_plan,
-              quick=500, thorough=16 * 1500)
+              quick=500, thorough=16 * 1200)
     ctx.given("ordering", gen_misc.ordering_text_cases(), check_ordering,
-              quick=500, thorough=16 * 1500)
+              quick=500, thorough=16 * 1200)
     tables = gen_misc.record_tables(max_recs=12)
     ctx.given("results_table", tables, check_results_table,
-              quick=300, thorough=16 * 400)
+              quick=300, thorough=16 * 300)
     if "F10" in ctx.active_findings or F_MAXTIME in ctx.active_findings:
         # keep the statistics sub-check busy behind the excluded classes
         tables = gen_misc.record_tables(
@@ -498,4 +498,4 @@ def run(ctx: Ctx) -> None:
                         "per_record") if F_MAXTIME in ctx.active_findings
             else ("distinct", "per_record", "all", "none"))
     ctx.given("stats_table", tables, check_stats_table,
-              quick=400, thorough=16 * 500)
+              quick=400, thorough=16 * 400)
